@@ -1501,11 +1501,11 @@ def main(chk: C.Check, build: C.Build) -> None:
     # 1. programs of the modelled fragment x data x deleted subsets
     cases: list[tuple[list[tuple], dict[str, Any], tuple, bool]] = []
     site = site_programs()
-    site = [x for x in site if r.random() < (0.5 if thorough else 0.015)]
+    site = [x for x in site if r.random() < (0.5 if thorough else 0.01)]
     for prog, data in site:
         for sub, d in deletions(prog, data, r, 2, 2):
             cases.append((prog, d, sub, False))
-    nprog = 450 if thorough else 45
+    nprog = 450 if thorough else 35
     for i in range(nprog):
         prog = gen_block(r, [], depth=3 if thorough else 2, n=r.choice([1, 2, 2, 3]))
         dels = deletions(prog, BASE, r, 4, 12 if thorough else 3)
@@ -1625,12 +1625,12 @@ def main(chk: C.Check, build: C.Build) -> None:
         # Python == between an undefined and nil / false, in every policy: never sampled away
         a = k["replay"]["args"]
         return k["replay"]["kernel"] in ("_eq", "_contains") and "Undefined(" in a and ("None" in a or "False" in a)
-    kitems += [k for k in kall if must(k) or r.random() < (0.3 if thorough else 0.04)]
+    kitems += [k for k in kall if must(k) or r.random() < (0.3 if thorough else 0.03)]
 
     # 3. oracle beyond the model
     nbeyond = 0
     for src, data, complete in all_filter_sources():
-        if not thorough and r.random() > 0.08:
+        if not thorough and r.random() > 0.06:
             continue
         for ae in (False, True):
             outs = {pol: render_impl(src, data, pol, ae) for pol in POLS}
